@@ -103,6 +103,13 @@ def c19(tier, seed):
     jobs.append(bigfmt_job("qstring"))      # qstrdupf / qstrcatf across the 1024 * 2^k growth thresholds of the formatting buffer
     return jobs
 
+def acdeep_jobs(tier):
+    X = 1 if tier == "thorough" else 0
+    H = ["inputmc/c20.c"]
+    return [Job("acdeep", H, ["acdeep", 600 if X else 300, X], wraps=["popen"], weight=3),
+            Job("o0-acdeep", H, ["acdeep", 600 if X else 300, X], wraps=["popen"], flavour="o0", weight=3)]
+
+
 # ---------------------------------------------------------------- C17
 @prop("C17", "exploration",
       "every sequence of <= L tokens over the significant tokens of each format, as a NUL-terminated string in an exactly "
@@ -129,7 +136,7 @@ def c17(tier, seed):
     for name, L, shards in (("apache0", 5 + X, 4), ("apache3", 5 + X, 4), ("ini", 5 + X, 4), ("inifile", 4 + X, 2), ("query", 6 + X, 1)):
         for i in range(shards):
             jobs.append(Job("o0-%s-%d" % (name, i), H, [name, L, i, shards], wraps=W, flavour="o0", weight=4))
-    return jobs
+    return jobs + acdeep_jobs(tier)
 
 # ---------------------------------------------------------------- C20
 @prop("C20", "exploration",
@@ -172,7 +179,7 @@ def c20(tier, seed):
     jobs.append(Job("o0-actype-0", H, ["actype", 0], wraps=W, flavour="o0", weight=2))
     jobs.append(Job("o0-acquote-0", H, ["acquote", 2, 0, 1], wraps=W, flavour="o0", weight=2))
     jobs.append(Job("o0-ini-0", H, ["ini", 3, 0, 1], wraps=W, flavour="o0", weight=2))
-    return jobs
+    return jobs + acdeep_jobs(tier)
 
 VA_WRAPS = ["malloc", "calloc", "realloc", "strdup", "free"]
 
@@ -356,8 +363,9 @@ def c10(tier, seed):
 def hasharr_jobs(tier):
     X = tier == "thorough"
     jobs = [Job("hasharr-bigkey", ["imagemc/hasharr.c"], ["bigkey"], wraps=VA_WRAPS, weight=1)]
-    for m in ([2, 3, 4, 5, 6, 7] if X else [2, 3, 4, 5]):
-        jobs.append(Job("hasharr-M%d" % m, ["imagemc/hasharr.c"], [m], wraps=VA_WRAPS, weight=10 ** (m - 2)))
+    jobs.append(Job("hasharr-ctor", ["imagemc/hasharr.c"], ["ctor", 1200 if X else 600], wraps=VA_WRAPS, weight=1))
+    for m in ([1, 2, 3, 4, 5, 6, 7] if X else [1, 2, 3, 4, 5]):
+        jobs.append(Job("hasharr-M%d" % m, ["imagemc/hasharr.c"], [m], wraps=VA_WRAPS, weight=10 ** max(0, m - 2)))
     jobs.append(bigfmt_job("qhasharr"))
     return jobs
 
